@@ -254,6 +254,15 @@ func (serv *ExchangeServer[H]) handleRangeRequest(
 			return nil, header.ErrNotFound
 		}
 
+		// the end of the requested range is not above the head, so it is below the store's tail:
+		// there is nothing to serve, and walking the store up to the head is not what was asked for
+		if head.Height() >= to-1 {
+			span.SetStatus(codes.Error, header.ErrNotFound.Error())
+			log.Debugw("server: requested headers are below the tail", "from", from, "to", to)
+			serv.metrics.rangeServed(ctx, time.Since(startTime), to-from, true)
+			return nil, header.ErrNotFound
+		}
+
 		log.Debugw("server: serving partial range",
 			"prevMaxHeight", to,
 			"newMaxHeight", head.Height()+1,
